@@ -169,3 +169,55 @@ def unary_nullable_grammar(rng, two_nts=None):
         if productive_reachable(prods):
             return prods, gr_text(prods)
     return None
+
+
+def nullable2_grammar(rng):
+    """2-3 nonterminals over {'a','b'} where most nonterminals have an EMPTY alternative:
+    right-nullable and hidden-recursive shapes that stack several nullable symbols on one
+    GLR frontier."""
+    for _ in range(200):
+        nts = NT_NAMES[: rng.randint(2, 3)]
+        prods = []
+        for l in nts:
+            alts = []
+            if rng.random() < 0.7:
+                alts.append([])
+            n_alt = rng.randint(2, 3)
+            while len(alts) < n_alt:
+                k = rng.randint(1, 3)
+                a = [rng.choice(nts) if rng.random() < 0.55 else rng.choice(["'a'", "'b'"]) for _ in range(k)]
+                if a not in alts:
+                    alts.append(a)
+            rng.shuffle(alts)
+            prods.append((l, alts))
+        if productive_reachable(prods):
+            return prods, gr_text(prods)
+    return None
+
+
+LEXLEN_TERMS = "\nterminals\nA: 'a';\nAA: 'aa';\nB: 'b';\nAB: 'ab';"
+
+
+def lexlen_grammar(rng):
+    """grammars over declared terminals that overlap with different lengths (A='a', AA='aa',
+    B='b', AB='ab'): GLR heads at different positions meet in one frontier"""
+    for _ in range(200):
+        nts = ["S", "X", "Y"][: rng.randint(1, 3)]
+        terms = ["A", "AA", "B", "AB"]
+        prods = []
+        for l in nts:
+            alts = []
+            n_alt = rng.randint(2, 3)
+            while len(alts) < n_alt:
+                k = rng.randint(1, 3)
+                a = [rng.choice(nts) if rng.random() < 0.45 else rng.choice(terms) for _ in range(k)]
+                if a not in alts:
+                    alts.append(a)
+            prods.append((l, alts))
+        # productivity/reachability with terminal names instead of quoted strings
+        q = [(l, [["'%s'" % x if x in terms else x for x in a] for a in alts]) for l, alts in prods]
+        if productive_reachable(q):
+            used = sorted(set(x for _, alts in prods for a in alts for x in a if x in terms))
+            decl = "\nterminals\n" + "\n".join("%s: '%s';" % (t, t.lower()) for t in used)
+            return prods, gr_text(prods) + decl
+    return None
